@@ -50,7 +50,10 @@ pub fn complete(
             return complete_arg(&arg, current_cmd, current_dir, pos_index, current_state);
         }
 
-        if let Ok(value) = arg.to_value() {
+        // Like the real parser, a value of a pending option is not a subcommand
+        let maybe_subcommand = current_cmd.is_subcommand_precedence_over_arg_set()
+            || !matches!(current_state, ParseState::Opt(_));
+        if let Some(value) = arg.to_value().ok().filter(|_| maybe_subcommand) {
             if let Some(next_cmd) = current_cmd.find_subcommand(value) {
                 current_cmd = next_cmd;
                 pos_index = 1;
